@@ -34,6 +34,8 @@
 mod corpus15;
 #[path = "c15_scen.rs"]
 mod scen15;
+#[path = "c15_open.rs"]
+mod open15;
 
 use scen15::{catalogue, Bad, Case, Obs, Role, St, ALL_STATES};
 use serde_json::{json, Value as J};
@@ -573,6 +575,10 @@ pub fn run(ctx: &Ctx) -> Outcome {
         out.violation(sig, detail, rep);
     }
 
+    // ---- the open stage (in this process: every case is a handful of frames)
+    let (open_cases, open_distinct) = open15::run(&mut out);
+    out.set("open_stage_cases", open_cases);
+    out.set("open_stage_distinct_outcomes", open_distinct);
     // ---- samples: re-execute three cases in this process for their traces
     let mut samples: Vec<J> = vec![];
     let mut want: Vec<usize> = vec![];
